@@ -283,7 +283,6 @@ func newParty(w *world, cfg config, pemKey []byte) (*party, error) {
 	// complete second AuthURLHandler request on the same handler value before returning
 	up = append(up, func() []oauth2.AuthCodeOption {
 		if f := p.nest; f != nil {
-			p.nest = nil
 			f()
 		}
 		return nil
@@ -296,9 +295,15 @@ func newParty(w *world, cfg config, pemKey []byte) (*party, error) {
 		p.states = p.states[1:]
 		return s
 	}, party, up...)
+	reentrant := rp.URLParamOpt(func() []oauth2.AuthCodeOption {
+		if f := p.nest; f != nil {
+			f()
+		}
+		return nil
+	})
 	p.cb = rp.CodeExchangeHandler(func(_ http.ResponseWriter, _ *http.Request, _ *oidc.Tokens[*oidc.IDTokenClaims], state string, _ rp.RelyingParty) {
 		p.called = append(p.called, emit.Ctor("HApp", emit.Str(state)))
-	}, party)
+	}, party, reentrant)
 	return p, nil
 }
 
@@ -350,7 +355,7 @@ type op struct {
 	post  bool
 	tokOK bool
 	apply bool
-	nested *op   // start: a second login that runs while this one is between computing its challenge and rendering its URL
+	during []op  // start / callback: operations that run re-entrantly inside this request (see runner)
 	e     entry  // set (resolved while running when setKind >= 0)
 	setKind int
 	name  string // del
@@ -428,144 +433,217 @@ func resolveSet(r drv.Rand, w *world, kind int, j jar, minted []entry) entry {
 	return junk(drv.Pick(r, []string{"state", "pkce"}))
 }
 
+// runner executes a history against the real handlers.  An operation may carry
+// `during` operations: they are executed RE-ENTRANTLY, on the same handler
+// values, while the outer request evaluates its URL / token-request options
+// (i.e. after the outer login has set its cookies and computed its challenge,
+// or after the outer callback has read its cookies and before it calls the
+// token endpoint).  No threads: nothing can hang.
+type runner struct {
+	p      *party
+	r      drv.Rand
+	j      jar
+	minted []entry
+	res    result
+}
+
 func (p *party) runOps(r drv.Rand, j jar, ops []op) result {
-	res := result{htab: map[string]string{}}
-	var minted []entry
-	for _, o := range ops {
-		if o.kind == "set" && o.setKind >= 0 {
-			o.e = resolveSet(r, p.w, o.setKind, j, minted)
+	x := &runner{p: p, r: r, j: j, res: result{htab: map[string]string{}}}
+	if pn := drv.Catch(func() {
+		for _, o := range ops {
+			x.exec(o)
 		}
-		switch o.kind {
-		case "start":
-			// states handed out by stateFn in call order: outer login first, then the
-			// login that runs re-entrantly while the outer one renders its URL
-			p.states = []string{o.state}
-			p.called = nil
-			req := httptest.NewRequest("GET", "https://rp.example/login", nil)
-			attach(req, j)
-			rec := httptest.NewRecorder()
-			var nestedRec *httptest.ResponseRecorder
-			if o.nested != nil {
-				p.states = append(p.states, o.nested.state)
-				jn := j
-				p.nest = func() {
-					nreq := httptest.NewRequest("GET", "https://rp.example/login", nil)
-					attach(nreq, jn)
-					nestedRec = httptest.NewRecorder()
-					p.login.ServeHTTP(nestedRec, nreq)
-				}
-			}
-			if pn := drv.Catch(func() { p.login.ServeHTTP(rec, req) }); pn != "" {
-				res.panicked = true
-				return res
-			}
-			p.nest = nil
-			// the nested login's response is complete first; the browser applies it first
-			type done struct {
-				state string
-				hr    *http.Response
-				how   string
-			}
-			var finished []done
-			if o.nested != nil && nestedRec != nil {
-				finished = append(finished, done{o.nested.state, nestedRec.Result(), "nested"})
-			}
-			finished = append(finished, done{o.state, rec.Result(), "outer"})
-			for _, d := range finished {
-				hr := d.hr
-				cs, csCoq := p.cookieCmds(hr)
-				verifier := ""
-				for _, c := range cs {
-					if !c.del && c.name == "pkce" && c.e.sym.mac {
-						verifier = c.e.sym.value
-						res.htab[verifier] = oidc.NewSHACodeChallenge(verifier)
-					}
-				}
-				res.opsCoq = append(res.opsCoq, emit.Ctor("OStart", emit.Str(d.state), emit.Str(verifier)))
-				loc := hr.Header.Get("Location")
-				if hr.StatusCode != http.StatusFound || len(p.called) > 0 || loc == "" {
-					res.evsCoq = append(res.evsCoq, "EvOther")
-				} else {
-					base, rawq, _ := strings.Cut(loc, "?")
-					vals, err := url.ParseQuery(rawq)
-					var ps [][2]string
-					if err != nil {
-						ps = append(ps, [2]string{"<unparsable>", rawq})
-					}
-					keys := make([]string, 0, len(vals))
-					for k := range vals {
-						keys = append(keys, k)
-					}
-					sort.Strings(keys)
-					for _, k := range keys {
-						for _, v := range vals[k] {
-							ps = append(ps, [2]string{k, v})
-						}
-					}
-					res.evsCoq = append(res.evsCoq, emit.Ctor("EvAuth", csCoq, emit.Str(base), pairs(ps)))
-				}
-				res.human = append(res.human, map[string]any{"op": "start", "overlap": d.how, "state": d.state, "location": loc})
-				for _, c := range cs {
-					if !c.del {
-						minted = append(minted, c.e)
-					}
-				}
-				j = apply(j, cs)
-			}
-		case "callback":
-			p.called = nil
-			p.rt.ok = o.tokOK
-			p.rt.reqs = nil
-			var req *http.Request
-			form := o.q
-			if o.post {
-				// half of the parameters in the body, all of them in the URL: body values win
-				half := o.q[:(len(o.q)+1)/2]
-				req = httptest.NewRequest("POST", "https://rp.example/cb?"+encodeQuery(o.q), strings.NewReader(encodeQuery(half)))
-				req.Header.Set("Content-Type", "application/x-www-form-urlencoded")
-				form = append(append([][2]string{}, half...), o.q...)
-			} else {
-				req = httptest.NewRequest("GET", "https://rp.example/cb?"+encodeQuery(o.q), nil)
-			}
-			attach(req, j)
-			rec := httptest.NewRecorder()
-			if pn := drv.Catch(func() { p.cb.ServeHTTP(rec, req) }); pn != "" {
-				res.panicked = true
-				return res
-			}
-			cs, csCoq := p.cookieCmds(rec.Result())
-			h := "HOther"
-			if len(p.called) == 1 {
-				h = p.called[0]
-			}
-			var reqs []string
-			for _, t := range p.rt.reqs {
-				reqs = append(reqs, t.coq())
-			}
-			res.opsCoq = append(res.opsCoq, emit.Ctor("OCallback", pairs(form), emit.Bool(o.tokOK), emit.Bool(o.apply)))
-			res.evsCoq = append(res.evsCoq, emit.Ctor("EvCb", h, emit.List(reqs), csCoq))
-			res.human = append(res.human, map[string]any{"op": "callback", "query": o.q, "post": o.post, "handlers": p.called, "token_requests": len(p.rt.reqs)})
-			if o.apply {
-				j = apply(j, cs)
-			}
-		case "set":
-			res.opsCoq = append(res.opsCoq, emit.Ctor("OSet", emit.Str(o.e.name), o.e.sym.coq()))
-			res.evsCoq = append(res.evsCoq, "EvNone")
-			res.human = append(res.human, map[string]any{"op": "set", "name": o.e.name, "value": o.e.sym.describe()})
-			j = j.set(o.e)
-		case "del":
-			res.opsCoq = append(res.opsCoq, emit.Ctor("ODel", emit.Str(o.name)))
-			res.evsCoq = append(res.evsCoq, "EvNone")
-			res.human = append(res.human, map[string]any{"op": "del", "name": o.name})
-			j = j.del(o.name)
-		}
+	}); pn != "" {
+		x.res.panicked = true
 	}
-	return res
+	return x.res
+}
+
+func (x *runner) emit(opCoq, evCoq string, human map[string]any) int {
+	x.res.opsCoq = append(x.res.opsCoq, opCoq)
+	x.res.evsCoq = append(x.res.evsCoq, evCoq)
+	x.res.human = append(x.res.human, human)
+	return len(x.res.opsCoq) - 1
+}
+
+// isolated runs one request with its own handler / token-request records
+func (x *runner) isolated(tokOK bool, f func()) (called []string, reqs []tokreq) {
+	p := x.p
+	sc, sr, sok := p.called, p.rt.reqs, p.rt.ok
+	p.called, p.rt.reqs, p.rt.ok = nil, nil, tokOK
+	defer func() { p.called, p.rt.reqs, p.rt.ok = sc, sr, sok }()
+	f()
+	return p.called, p.rt.reqs
+}
+
+// arm makes the re-entrant option run the `during` operations once; it reports whether they ran inside the window
+func (x *runner) arm(during []op) (ranInside *bool) {
+	ran := false
+	if len(during) == 0 {
+		return &ran
+	}
+	saved := x.p.nest
+	x.p.nest = func() {
+		ran = true
+		x.p.nest = nil
+		for _, d := range during {
+			d.during = nil
+			x.exec(d)
+		}
+		x.p.nest = saved
+	}
+	return &ran
+}
+
+func (x *runner) exec(o op) {
+	p := x.p
+	if o.kind == "set" && o.setKind >= 0 {
+		o.e = resolveSet(x.r, p.w, o.setKind, x.j, x.minted)
+	}
+	switch o.kind {
+	case "start":
+		// can the cookie hold this state at all? (securecookie length limit; the real Encode decides)
+		encodable := p.w.twin[0].SetCookie(httptest.NewRecorder(), "state", o.state) == nil
+		p.states = append([]string{o.state}, p.states...)
+		req := httptest.NewRequest("GET", "https://rp.example/login", nil)
+		attach(req, x.j)
+		rec := httptest.NewRecorder()
+		ran := x.arm(o.during)
+		called, _ := x.isolated(true, func() { p.login.ServeHTTP(rec, req) })
+		if !*ran && len(o.during) > 0 { // the window never opened: the browser does them afterwards
+			p.nest = nil
+			for _, d := range o.during {
+				d.during = nil
+				x.exec(d)
+			}
+		}
+		hr := rec.Result()
+		cs, csCoq := p.cookieCmds(hr)
+		verifier := ""
+		for _, c := range cs {
+			if !c.del && c.name == "pkce" && c.e.sym.mac {
+				verifier = c.e.sym.value
+				x.res.htab[verifier] = oidc.NewSHACodeChallenge(verifier)
+			}
+		}
+		opCoq := emit.Ctor("OStart", emit.Str(o.state), emit.Str(verifier))
+		if !encodable {
+			opCoq = emit.Ctor("OStartFail", emit.Str(o.state))
+		}
+		loc := hr.Header.Get("Location")
+		var evCoq string
+		if hr.StatusCode != http.StatusFound || len(called) > 0 || loc == "" {
+			evCoq = "EvOther"
+			if len(cs) > 0 { // no redirect but cookies: not a behaviour the model has
+				evCoq = emit.Ctor("EvAuth", csCoq, emit.Str("<no-redirect>"), "[]")
+			}
+		} else {
+			base, rawq, _ := strings.Cut(loc, "?")
+			vals, err := url.ParseQuery(rawq)
+			var ps [][2]string
+			if err != nil {
+				ps = append(ps, [2]string{"<unparsable>", rawq})
+			}
+			keys := make([]string, 0, len(vals))
+			for k := range vals {
+				keys = append(keys, k)
+			}
+			sort.Strings(keys)
+			for _, k := range keys {
+				for _, v := range vals[k] {
+					ps = append(ps, [2]string{k, v})
+				}
+			}
+			evCoq = emit.Ctor("EvAuth", csCoq, emit.Str(base), pairs(ps))
+		}
+		// a login reads nothing from the jar: its operation is listed when its response arrives,
+		// i.e. after the operations that ran during it
+		x.emit(opCoq, evCoq, map[string]any{"op": "start", "overlapped_by": len(o.during), "state_len": len(o.state), "state": clip(o.state), "location": clip(loc)})
+		for _, c := range cs {
+			if !c.del {
+				x.minted = append(x.minted, c.e)
+			}
+		}
+		x.j = apply(x.j, cs)
+	case "callback":
+		var req *http.Request
+		form := o.q
+		if o.post {
+			// half of the parameters in the body, all of them in the URL: body values win
+			half := o.q[:(len(o.q)+1)/2]
+			req = httptest.NewRequest("POST", "https://rp.example/cb?"+encodeQuery(o.q), strings.NewReader(encodeQuery(half)))
+			req.Header.Set("Content-Type", "application/x-www-form-urlencoded")
+			form = append(append([][2]string{}, half...), o.q...)
+		} else {
+			req = httptest.NewRequest("GET", "https://rp.example/cb?"+encodeQuery(o.q), nil)
+		}
+		attach(req, x.j) // the request carries the jar as it is NOW
+		// the callback is listed at the time its request left the browser
+		late := len(o.during) > 0
+		idx := x.emit("", "", nil)
+		rec := httptest.NewRecorder()
+		ran := x.arm(o.during)
+		called, treqs := x.isolated(o.tokOK, func() { p.cb.ServeHTTP(rec, req) })
+		if !*ran && late {
+			p.nest = nil
+			for _, d := range o.during {
+				d.during = nil
+				x.exec(d)
+			}
+		}
+		cs, csCoq := p.cookieCmds(rec.Result())
+		h := "HOther"
+		if len(called) == 1 {
+			h = called[0]
+		}
+		var reqs []string
+		for _, t := range treqs {
+			reqs = append(reqs, t.coq())
+		}
+		applyNow := o.apply && !late
+		x.res.opsCoq[idx] = emit.Ctor("OCallback", pairs(form), emit.Bool(o.tokOK), emit.Bool(applyNow))
+		x.res.evsCoq[idx] = emit.Ctor("EvCb", h, emit.List(reqs), csCoq)
+		x.res.human[idx] = map[string]any{"op": "callback", "overlapped_by": len(o.during), "ran_inside": *ran, "query": clipQ(o.q), "post": o.post, "handlers": len(called), "token_requests": len(treqs)}
+		if applyNow {
+			x.j = apply(x.j, cs)
+		} else if o.apply { // the response arrives after the operations that ran during the request
+			for _, c := range cs {
+				if c.del {
+					x.emit(emit.Ctor("ODel", emit.Str(c.name)), "EvNone", map[string]any{"op": "late-delete", "name": c.name})
+					x.j = x.j.del(c.name)
+				} else {
+					x.emit(emit.Ctor("OSet", emit.Str(c.name), c.e.sym.coq()), "EvNone", map[string]any{"op": "late-set", "name": c.name})
+					x.j = x.j.set(c.e)
+				}
+			}
+		}
+	case "set":
+		x.emit(emit.Ctor("OSet", emit.Str(o.e.name), o.e.sym.coq()), "EvNone", map[string]any{"op": "set", "name": o.e.name, "value": clip(o.e.sym.describe())})
+		x.j = x.j.set(o.e)
+	case "del":
+		x.emit(emit.Ctor("ODel", emit.Str(o.name)), "EvNone", map[string]any{"op": "del", "name": o.name})
+		x.j = x.j.del(o.name)
+	}
+}
+
+func clip(s string) string {
+	if len(s) > 120 {
+		return fmt.Sprintf("%s...(%d bytes)", s[:100], len(s))
+	}
+	return s
+}
+
+func clipQ(q [][2]string) [][2]string {
+	var out [][2]string
+	for _, kv := range q {
+		out = append(out, [2]string{kv[0], clip(kv[1])})
+	}
+	return out
 }
 
 // ---------- generators ----------
 
-var statePool = []string{"st-1", "st-2", "st-3", "a b&c=d", "Zm9v.YmFy-_~", "säöü%20", "x", "0123456789abcdef0123456789abcdef", strings.Repeat("long", 40)}
+var statePool = []string{"", "st-1", "st-2", "st-3", "a b&c=d", "Zm9v.YmFy-_~", "säöü%20", "x", "0123456789abcdef0123456789abcdef", strings.Repeat("long", 40)}
 
 func genConfig(r drv.Rand) config {
 	c := config{
@@ -592,7 +670,56 @@ func genConfig(r drv.Rand) config {
 	return c
 }
 
+// pickState: what the application's state generator returns.  Short tokens, empty,
+// non-ASCII, data-carrying long states around 256 bytes and beyond (sharing long
+// prefixes with each other), and states the cookie cannot hold (> securecookie's limit).
+func pickState(r drv.Rand) string {
+	switch x := r.IntN(20); {
+	case x < 13:
+		return drv.Pick(r, statePool)
+	case x < 19:
+		n := drv.Pick(r, []int{255, 256, 256, 257, 257, 258, 300, 300, 511, 511, 1000, 2000})
+		tag := drv.Pick(r, []string{"-A", "-B", "-C", "é"})
+		base := "nonce=123&return=" + strings.Repeat("/path/segment", 400)
+		return base[:n-len(tag)] + tag
+	default:
+		return strings.Repeat("0123456789abcdef", drv.Pick(r, []int{160, 260})) // 2560 / 4160 bytes: Encode fails
+	}
+}
+
+// nearMiss: a callback state that almost equals s
+func nearMiss(r drv.Rand, s string) string {
+	var c []string
+	c = append(c, s+"x", "")
+	if len(s) > 0 {
+		c = append(c, s[:len(s)-1], s[1:], strings.ToUpper(s), strings.ToLower(s))
+		b := []byte(s)
+		b[len(b)-1] ^= 1
+		c = append(c, string(b))
+		b = []byte(s)
+		b[len(b)/2] ^= 2
+		c = append(c, string(b))
+	}
+	for _, n := range []int{255, 256, 257, 128, 64} {
+		if len(s) > n {
+			c = append(c, s[:n], s[:n]+"tampered")
+			b := []byte(s)
+			b[n+r.IntN(len(s)-n)] ^= 4
+			c = append(c, string(b))
+		}
+	}
+	for i := 0; i < 8; i++ {
+		if v := drv.Pick(r, c); v != s {
+			return v
+		}
+	}
+	return s + "x"
+}
+
 func callbackQuery(r drv.Rand, state string, code string) [][2]string {
+	if r.Chance(1, 5) {
+		state = nearMiss(r, state)
+	}
 	q := [][2]string{{"code", code}, {"state", state}}
 	switch r.IntN(12) {
 	case 0:
@@ -637,8 +764,12 @@ func orderings(n int) [][]int { // +i = start i (1-based), -i = callback i
 func main() {
 	cfg := drv.Parse()
 	r := drv.NewRand(cfg.Seed)
-	w := emit.NewWriter(cfg.Out, "C17_spec", 0, cfg.Only)
-	n := cfg.Count(420, 9000)
+	shard := 0 // quick: default sharding; thorough: small shards (long states make big terms, ~5 MB of coqc heap per case)
+	if !cfg.Quick {
+		shard = 120
+	}
+	w := emit.NewWriter(cfg.Out, "C17_spec", shard, cfg.Only)
+	n := cfg.Count(420, 6000)
 
 	// deterministic verifiers: uuid.New() reads from the driver's PRNG
 	uuid.SetRand(readerFunc(func(b []byte) (int, error) { copy(b, r.Bytes(len(b))); return len(b), nil }))
@@ -671,7 +802,10 @@ func main() {
 		switch {
 		case kind < 3: // (jar, query) pair: scripted jar, one callback
 			tags = append(tags, "kind=pair")
-			s := drv.Pick(r, statePool)
+			s := pickState(r)
+			if len(s) > 2000 {
+				s = s[:2000]
+			}
 			v := "verifier-" + fmt.Sprint(r.IntN(1000))
 			stateE := wd.mint(0, "state", s)
 			pkceE := wd.mint(0, "pkce", v)
@@ -739,8 +873,8 @@ func main() {
 			ordIdx++
 			tags = append(tags, "kind=ordering", fmt.Sprintf("logins=%d", len(ord)/2))
 			states := []string{"st-1", "st-2", "st-3"}
-			if r.Chance(1, 5) {
-				states = []string{drv.Pick(r, statePool), drv.Pick(r, statePool), drv.Pick(r, statePool)}
+			if r.Chance(1, 3) {
+				states = []string{pickState(r), pickState(r), pickState(r)}
 			}
 			for _, x := range ord {
 				if x > 0 {
@@ -751,15 +885,19 @@ func main() {
 				}
 			}
 		case kind >= 10: // overlapping logins: a second login runs re-entrantly inside the first one's URL rendering
-			variant := (i / 12) % 4
+			variant := (i / 12) % 8
 			tags = append(tags, "kind=overlap", fmt.Sprintf("overlap=%d", variant))
 			st := []string{"st-1", "st-2", "st-3", "st-4"}
-			if r.Chance(1, 5) {
-				st = []string{drv.Pick(r, statePool), drv.Pick(r, statePool), "st-3", drv.Pick(r, statePool)}
+			if r.Chance(1, 3) {
+				st = []string{pickState(r), pickState(r), "st-3", pickState(r)}
 			}
 			cb := func(k int) op {
 				return op{kind: "callback", q: callbackQuery(r, st[k], fmt.Sprintf("code-%d", k+1)), post: r.Chance(1, 8), tokOK: r.Chance(5, 6), apply: r.Chance(7, 8)}
 			}
+			good := func(k int) op { // a callback that is meant to reach the token endpoint
+				return op{kind: "callback", q: [][2]string{{"code", fmt.Sprintf("code-%d", k+1)}, {"state", st[k]}}, tokOK: r.Chance(5, 6), apply: true}
+			}
+			start := func(k int) op { return op{kind: "start", state: st[k]} }
 			shuffled := func(ks ...int) []op {
 				r.Shuffle(len(ks), func(a, b int) { ks[a], ks[b] = ks[b], ks[a] })
 				var out []op
@@ -768,18 +906,24 @@ func main() {
 				}
 				return out
 			}
-			nest := func(outer, inner int) op {
-				return op{kind: "start", state: st[outer], nested: &op{kind: "start", state: st[inner]}}
-			}
+			with := func(o op, during ...op) op { o.during = during; return o }
 			switch variant {
 			case 0: // login 1 overlapped by login 2
-				ops = append([]op{nest(0, 1)}, shuffled(0, 1)...)
+				ops = append([]op{with(start(0), start(1))}, shuffled(0, 1)...)
 			case 1: // login 1, then login 2 overlapped by login 3
-				ops = append([]op{{kind: "start", state: st[0]}, nest(1, 2)}, shuffled(0, 1, 2)...)
+				ops = append([]op{start(0), with(start(1), start(2))}, shuffled(0, 1, 2)...)
 			case 2:
-				ops = []op{nest(0, 1), cb(0), nest(2, 3), cb(2), cb(3)}
-			default:
-				ops = []op{{kind: "start", state: st[0]}, cb(0), nest(1, 2), cb(1), cb(2)}
+				ops = []op{with(start(0), start(1)), cb(0), with(start(2), start(3)), cb(2), cb(3)}
+			case 3:
+				ops = []op{start(0), cb(0), with(start(1), start(2)), cb(1), cb(2)}
+			case 4: // callback 1 in flight while login 2 and its callback happen
+				ops = []op{start(0), with(good(0), start(1), good(1))}
+			case 5: // the same callback twice, overlapping (double submit)
+				ops = []op{start(0), with(good(0), good(0))}
+			case 6:
+				ops = []op{start(0), with(good(0), start(1), cb(1), start(2)), cb(2)}
+			default: // a callback arrives while a login is being rendered
+				ops = []op{start(0), with(start(1), cb(0)), cb(1)}
 			}
 		default: // random history; kind 9 also replays old valid cookies (not "honest")
 			replay := kind == 9
@@ -798,16 +942,16 @@ func main() {
 			}
 			var started []string
 			m := 3 + r.IntN(6)
-			ops = append(ops, op{kind: "start", state: drv.Pick(r, statePool)})
+			ops = append(ops, op{kind: "start", state: pickState(r)})
 			started = append(started, ops[0].state)
 			for len(ops) < m {
 				switch r.IntN(10) {
 				case 0, 1, 2:
-					s := drv.Pick(r, statePool)
+					s := pickState(r)
 					o := op{kind: "start", state: s}
 					if r.Chance(1, 5) { // overlapped by another login
-						o.nested = &op{kind: "start", state: drv.Pick(r, statePool)}
-						started = append(started, o.nested.state)
+						o.during = []op{{kind: "start", state: pickState(r)}}
+						started = append(started, o.during[0].state)
 					}
 					ops = append(ops, o)
 					started = append(started, s)
@@ -819,8 +963,15 @@ func main() {
 					if r.Chance(1, 10) {
 						s = "unknown"
 					}
-					ops = append(ops, op{kind: "callback", q: callbackQuery(r, s, fmt.Sprintf("code-%d", len(ops))),
-						post: r.Chance(1, 8), tokOK: r.Chance(5, 6), apply: r.Chance(5, 6)})
+					o := op{kind: "callback", q: callbackQuery(r, s, fmt.Sprintf("code-%d", len(ops))),
+						post: r.Chance(1, 8), tokOK: r.Chance(5, 6), apply: r.Chance(5, 6)}
+					if r.Chance(1, 6) { // overlapped by another login and its callback
+						s2 := pickState(r)
+						o.during = []op{{kind: "start", state: s2},
+							{kind: "callback", q: callbackQuery(r, s2, "code-n"), tokOK: r.Chance(5, 6), apply: true}}
+						started = append(started, s2)
+					}
+					ops = append(ops, o)
 				case 7:
 					ops = append(ops, op{kind: "del", name: drv.Pick(r, []string{"state", "pkce", "other"})})
 				default: // resolved while running (needs the jar)
@@ -848,8 +999,14 @@ func main() {
 		}
 		in := emit.Ctor("Inp", c.coq(), emit.List(tab), j0.coq(), emit.List(res.opsCoq))
 		obs := emit.Ctor("Obs", emit.List(res.evsCoq))
-		if res.panicked {
-			// the operations up to the panic are not all known in symbolic form: give the planned ones
+		if res.panicked { // operations whose response never came are left out of the input
+			var known []string
+			for _, o := range res.opsCoq {
+				if o != "" {
+					known = append(known, o)
+				}
+			}
+			in = emit.Ctor("Inp", c.coq(), emit.List(tab), j0.coq(), emit.List(known))
 			obs = "OPanic"
 		}
 		tags = append(tags, fmt.Sprintf("ops=%d", min(len(ops), 8)))
@@ -857,7 +1014,7 @@ func main() {
 			Human: map[string]any{"config": fmt.Sprintf("%+v", c), "jar": j0.coq(), "steps": res.human}})
 	}
 	err = w.Close(emit.Meta{Property: "C17", Tier: cfg.Tier, Seed: cfg.Seed,
-		Rule: "each case = one RP configuration (PKCE, JWT profile, client, redirect URI, scopes, URL options, auth style, cookie encryption) + initial jar + history in one browser jar. kind=pair: scripted jar (valid / other value / other keys / other name / swapped / truncated / flipped / random / plaintext / missing / duplicate cookies) and one callback query; kind=ordering: every interleaving of 2 or 3 logins and their callbacks, cycled; kind=overlap: a login during whose URL rendering a complete second login runs re-entrantly on the same handler value (1st of 2, 2nd of 3, twice, after a finished flow); kind=history: random logins (some overlapped), callbacks (GET/POST, lost responses), deletions and unacceptable foreign cookie writes; kind=replay: histories that also re-insert older validly minted cookies. Non-trivial = the model's path class != 0 (anything beyond 'no state cookie in the jar'); distinct = distinct (input, path).",
+		Rule: "each case = one RP configuration (PKCE, JWT profile, client, redirect URI, scopes, URL options, auth style, cookie encryption) + initial jar + history in one browser jar. kind=pair: scripted jar (valid / other value / other keys / other name / swapped / truncated / flipped / random / plaintext / missing / duplicate cookies) and one callback query; kind=ordering: every interleaving of 2 or 3 logins and their callbacks, cycled; kind=overlap: requests that run re-entrantly, on the same handler values, inside another request's option evaluation: login inside login (1st of 2, 2nd of 3, twice, after a finished flow), login+callback inside a callback, double-submitted callback, callback inside a login; states: short / empty / non-ASCII / 255-2000 bytes with shared prefixes / too long for the cookie; every 5th callback state is a near miss (prefix, suffix, case, one byte, cut at 64/128/255/256/257, tampered tail); kind=history: random logins (some overlapped), callbacks (GET/POST, lost responses), deletions and unacceptable foreign cookie writes; kind=replay: histories that also re-insert older validly minted cookies. Non-trivial = the model's path class != 0 (anything beyond 'no state cookie in the jar'); distinct = distinct (input, path).",
 		Extra: map[string]any{"orderings_2": len(ord2), "orderings_3": len(ord3), "ordering_cases": ordIdx, "dropped": dropped},
 	})
 	if err != nil {
